@@ -67,6 +67,11 @@ type ExecutionContext struct {
 	template   *Template
 	macroDepth int
 
+	// nodeState keeps the state tags need to remember between their executions within
+	// one rendering (e.g. the position of a cycle), keyed by node. It belongs to the
+	// execution (never to the compiled template) and is shared with all child contexts.
+	nodeState map[INode]any
+
 	Autoescape bool
 	Public     Context
 	Private    Context
@@ -89,6 +94,7 @@ func newExecutionContext(tpl *Template, ctx Context) *ExecutionContext {
 		Public:     ctx,
 		Private:    privateCtx,
 		Autoescape: autoescape,
+		nodeState:  make(map[INode]any),
 	}
 }
 
@@ -99,6 +105,7 @@ func NewChildExecutionContext(parent *ExecutionContext) *ExecutionContext {
 		Public:     parent.Public,
 		Private:    make(Context),
 		Autoescape: parent.Autoescape,
+		nodeState:  parent.nodeState,
 	}
 	newctx.Shared = parent.Shared
 
@@ -106,6 +113,20 @@ func NewChildExecutionContext(parent *ExecutionContext) *ExecutionContext {
 	newctx.Private.Update(parent.Private)
 
 	return newctx
+}
+
+// getNodeState returns the state a node stored during the current rendering (or nil).
+func (ctx *ExecutionContext) getNodeState(node INode) any {
+	return ctx.nodeState[node]
+}
+
+// setNodeState stores a node's state for the current rendering.
+func (ctx *ExecutionContext) setNodeState(node INode, state any) {
+	if ctx.nodeState == nil {
+		// execution context was not created by pongo2
+		ctx.nodeState = make(map[INode]any)
+	}
+	ctx.nodeState[node] = state
 }
 
 func (ctx *ExecutionContext) Error(msg string, token *Token) *Error {
